@@ -134,6 +134,9 @@ func (c *tctx) nat(e ast.Expr) (string, error) {
 		}
 		return x.Name, nil
 	case *ast.SelectorExpr:
+		if t, ok := c.consts[strings.Join(strings.Fields(c.src(x)), "")]; ok { // whole selector chain, e.g. exec.state.lastSyncedWALOffset
+			return t, nil
+		}
 		if id, ok := x.X.(*ast.Ident); ok {
 			if t, ok := c.consts[id.Name+"."+x.Sel.Name]; ok {
 				return t, nil
